@@ -7,10 +7,10 @@ def register(PROPS, HARNESS_PKGS):
         "mc": [{"module": "Routing", "cfg": "Routing_mc.cfg"}],
         "quick": {"gen": [{"module": "Routing", "cfg": "Routing_gen.cfg", "params": {"EP": '{"e1", "e2"}', "Spellings": '{"exact"}', "CTypes": '{"json"}'}},
                           {"module": "Routing", "cfg": "Routing_gen.cfg", "params": {"EP": '{"e1", "e2"}', "Spellings": _VARIANTS, "CTypes": '{"json"}'}},
-                          {"module": "Routing", "cfg": "Routing_gen.cfg", "params": {"EP": '{"e1", "e2"}', "Spellings": '{"exact"}', "CTypes": '{"form", "none", "bigjson"}'}}], "sample": 1000},
+                          {"module": "Routing", "cfg": "Routing_gen.cfg", "params": {"EP": '{"e1", "e2"}', "Spellings": '{"exact"}', "CTypes": '{"form", "none", "bigjson", "oddpath"}'}}], "sample": 1100},
         "thorough": {"gen": [{"module": "Routing", "cfg": "Routing_gen.cfg", "params": {"EP": '{"e1", "e2", "e3"}', "Spellings": '{"exact"}', "CTypes": '{"json"}'}},
                              {"module": "Routing", "cfg": "Routing_gen.cfg", "params": {"EP": '{"e1", "e2"}', "Spellings": _VARIANTS, "CTypes": '{"json"}'}},
-                             {"module": "Routing", "cfg": "Routing_gen.cfg", "params": {"EP": '{"e1", "e2"}', "Spellings": '{"exact"}', "CTypes": '{"form", "none", "bigjson"}'}}]},
+                             {"module": "Routing", "cfg": "Routing_gen.cfg", "params": {"EP": '{"e1", "e2"}', "Spellings": '{"exact"}', "CTypes": '{"form", "none", "bigjson", "oddpath"}'}}]},
         "pkg": "internal/app", "test": "TestVerif_Routing",
         "harness_files": ["stack_test.go", "dispatch_test.go", "routing_test.go"],
         "trace": {"module": "RoutingTrace", "cfg": "Routing_trace.cfg"},
@@ -18,7 +18,7 @@ def register(PROPS, HARNESS_PKGS):
     }
     PROPS["C09"] = {
         "rule": "TLC enumerates the whole decision table: strategy x fallback x refresh-on-miss x healthy set H x "
-                "listing set L (x unified/plain registry x proxy/provider route x how the request spells the model: native name, other letter case, ':latest' added, unified id, alias; x the Content-Type the client put on its JSON body: application/json, curl -d's form default, none; and a 1.6 MiB body, beyond the inspector's window); each row boots the assembled server "
+                "listing set L (x unified/plain registry x proxy/provider route x how the request spells the model: native name, other letter case, ':latest' added, unified id, alias; x the Content-Type the client put on its JSON body: application/json, curl -d's form default, none; and a 1.6 MiB body, beyond the inspector's window; and a path no profile declares); each row boots the assembled server "
                 "with that routing strategy, makes the endpoints outside H unhealthy through real health checks, "
                 "sends one request for the model and records who was contacted, the client status and the "
                 "routing-decision headers. Non-trivial = no healthy endpoint lists the model.",
